@@ -57,7 +57,7 @@ _SYMCONST = {"": "Sym.none", "$": "Sym.dollar", "<": "Sym.lt", ">": "Sym.gt"}
 
 
 def _bexpr(e, names):
-    """Translate a boolean expression over attributes of the two parameters."""
+    """Translate a boolean expression over attributes of the two parameters (and local aliases of them)."""
     if isinstance(e, ast.BoolOp):
         op = " && " if isinstance(e.op, ast.And) else " || "
         return "(" + op.join(_bexpr(v, names) for v in e.values) + ")"
@@ -65,6 +65,48 @@ def _bexpr(e, names):
         return "(!" + _bexpr(e.operand, names) + ")"
     if isinstance(e, ast.Constant) and isinstance(e.value, bool):
         return "true" if e.value else "false"
+    if isinstance(e, ast.IfExp):
+        return f"(if {_bexpr(e.test, names)} then {_bexpr(e.body, names)} else {_bexpr(e.orelse, names)})"
+    if isinstance(e, ast.Name) and e.id in names and isinstance(names[e.id], tuple) and names[e.id][1] == "bool":
+        return names[e.id][0]
+    if isinstance(e, ast.Compare) and len(e.ops) == 1 and isinstance(e.ops[0], (ast.In, ast.NotIn)):
+        # x in ("<", ">")  ->  disjunction of equalities
+        l, r = e.left, e.comparators[0]
+        neg = isinstance(e.ops[0], ast.NotIn)
+        if isinstance(l, ast.Name) and l.id in names and isinstance(names[l.id], tuple) and names[l.id][1] == "tuple":
+            l = names[l.id][0]
+        if isinstance(r, ast.Name) and r.id in names and isinstance(names[r.id], tuple) and names[r.id][1] == "tuple":
+            r = names[r.id][0]
+        if isinstance(l, ast.Constant) and isinstance(r, (ast.Tuple, ast.List)) and r.elts:
+            # "" in (x, y)  ->  x == "" or y == ""
+            alts = []
+            for x in r.elts:
+                xt, xk = _term(x, names)
+                if xk == "const":
+                    raise Unsupported("constant in a container of terms")
+                alts.append(f"({xt} == {_const(l, xk)})")
+            body = "(" + " || ".join(alts) + ")"
+            return "(!" + body + ")" if neg else body
+        if isinstance(l, ast.Tuple) and isinstance(r, (ast.Tuple, ast.List, ast.Set)) and \
+                all(isinstance(x, ast.Tuple) and len(x.elts) == len(l.elts) and all(isinstance(c, ast.Constant) for c in x.elts) for x in r.elts):
+            # (x, y) in (("$", "$"), ("<", ">"))  ->  disjunction of conjunctions
+            terms = [_term(x, names) for x in l.elts]
+            if any(k == "const" for _, k in terms):
+                raise Unsupported("constant inside the tuple on the left of `in`")
+            alts = ["(" + " && ".join(f"({t} == {_const(c, k)})" for (t, k), c in zip(terms, x.elts)) + ")" for x in r.elts]
+            body = "(" + " || ".join(alts) + ")" if alts else "false"
+            return "(!" + body + ")" if neg else body
+        if not isinstance(r, (ast.Tuple, ast.List, ast.Set)) or not all(isinstance(x, ast.Constant) for x in r.elts):
+            if isinstance(r, ast.Constant) and isinstance(r.value, str):
+                # x in "<>"  is substring membership: for one-character / empty symbols that differs ("" in "<>" is True)
+                raise Unsupported("membership in a string constant")
+            raise Unsupported("membership in a non-literal container")
+        lt, lk = _term(l, names)
+        if lk == "const":
+            raise Unsupported("constant on the left of `in`")
+        alts = [f"({lt} == {_const(x, lk)})" for x in r.elts]
+        body = "(" + " || ".join(alts) + ")" if alts else "false"
+        return body if isinstance(e.ops[0], ast.In) else "(!" + body + ")"
     if isinstance(e, ast.Compare) and len(e.ops) == 1 and isinstance(e.ops[0], (ast.Eq, ast.NotEq)):
         op = " == " if isinstance(e.ops[0], ast.Eq) else " != "
         l, r = e.left, e.comparators[0]
@@ -80,15 +122,25 @@ def _bexpr(e, names):
         if lk != "const" and rk != "const" and lk != rk:
             raise Unsupported(f"comparison of different fields {lk} / {rk}")
         return "(" + lt + op + rt + ")"
+    if isinstance(e, ast.Compare) and len(e.ops) > 1 and all(isinstance(o, (ast.Eq, ast.NotEq)) for o in e.ops):
+        # a == b == c  ->  a == b and b == c
+        parts = []
+        left = e.left
+        for o, c in zip(e.ops, e.comparators):
+            parts.append(_bexpr(ast.Compare(left=left, ops=[o], comparators=[c]), names))
+            left = c
+        return "(" + " && ".join(parts) + ")"
     raise Unsupported("boolean expression " + ast.dump(e))
 
 
 def _term(e, names):
-    if isinstance(e, ast.Attribute) and isinstance(e.value, ast.Name) and e.value.id in names:
+    if isinstance(e, ast.Attribute) and isinstance(e.value, ast.Name) and e.value.id in names and isinstance(names[e.value.id], str):
         if e.attr not in _ATTR:
             raise Unsupported(f"attribute {e.attr}")
         f = _ATTR[e.attr]
         return f"{names[e.value.id]}.{f}", f
+    if isinstance(e, ast.Name) and e.id in names and isinstance(names[e.id], tuple) and names[e.id][1] != "bool":
+        return names[e.id]          # local alias of an attribute
     if isinstance(e, ast.Constant):
         return None, "const"
     raise Unsupported("term " + ast.dump(e))
@@ -103,27 +155,48 @@ def _const(e, kind):
     if kind == "id":
         if v == "":
             return "(none : Option Nat)"
-        if isinstance(v, int) and v >= 0:
+        if isinstance(v, int) and not isinstance(v, bool) and v >= 0:
             return f"(some {v} : Option Nat)"
     raise Unsupported(f"constant {v!r} for field {kind}")
 
 
 def _bool_body(stmts, names):
-    """`if c: return b` ... `return b`  ->  nested if-then-else"""
+    """`if c: return b` ... `return b`  ->  nested if-then-else; `x = self.attr` / `x = <bool expr>` are local aliases"""
     if not stmts:
         raise Unsupported("function may fall off its end (returns None)")
     s = stmts[0]
     if isinstance(s, ast.Expr) and isinstance(s.value, ast.Constant) and isinstance(s.value.value, str):
         return _bool_body(stmts[1:], names)  # docstring
+    if isinstance(s, ast.Pass):
+        return _bool_body(stmts[1:], names)
+    if isinstance(s, ast.Assign) and len(s.targets) == 1 and isinstance(s.targets[0], ast.Name):
+        tgt = s.targets[0].id
+        if tgt in names and isinstance(names[tgt], str):
+            raise Unsupported("assignment to a parameter")
+        names = dict(names)
+        if isinstance(s.value, ast.Tuple):
+            names[tgt] = (s.value, "tuple")
+            return _bool_body(stmts[1:], names)
+        try:
+            t = _term(s.value, names)
+            if t[1] == "const":
+                raise Unsupported("alias of a constant")
+            names[tgt] = t
+        except Unsupported:
+            names[tgt] = (_bexpr(s.value, names), "bool")
+        return _bool_body(stmts[1:], names)
     if isinstance(s, ast.Return):
+        if s.value is None:
+            raise Unsupported("bare return")
         return _bexpr(s.value, names)
     if isinstance(s, ast.If):
-        then = _bool_body(s.body, names)
-        rest = s.orelse if s.orelse else stmts[1:]
-        if s.orelse and stmts[1:]:
-            raise Unsupported("if/else followed by further statements")
-        els = _bool_body(rest, names)
-        return f"if {_bexpr(s.test, names)} then {then} else\n  {els}"
+        then = _bool_body(list(s.body) + list(stmts[1:]), names)
+        if s.orelse:
+            # `else` branch that may fall through continues with the following statements
+            els = _bool_body(list(s.orelse) + list(stmts[1:]), names)
+        else:
+            els = _bool_body(stmts[1:], names)
+        return f"(if {_bexpr(s.test, names)} then {then} else\n  {els})"
     raise Unsupported("statement " + ast.dump(s)[:80])
 
 
